@@ -416,6 +416,119 @@ def chase_rule(chk, prog):
     return n
 
 
+STRSCAN_EXCEPTIONS = {
+    "from_base32": "decodes the hex strings the xattr writer made itself (to_base32 emits exactly two digits per byte); no input "
+                   "reaches it undecoded",
+}
+
+
+S_IFMT, S_IFDIR = 0o170000, 0o040000
+
+
+def _type_known(prog, f, bb, base, depth=0):
+    """the file type that the guards in front of `bb` establish for the object `base` points to ((base->mode & S_IFMT) == T),
+    None if there is none.  A parameter of a static helper is judged at the call sites."""
+    base = strip_casts(base)
+    if base.is_inst and base.op == "load":
+        q = strip_casts(base.ops[0])
+        if q.is_inst and q.op == "getelementptr" and q.field() and q.field()[1] == "root" and "fstree_t" in q.field()[0]:
+            return S_IFDIR                      # the root is made as a directory and never anything else
+    for cond, outcome, br in f.guards_at(bb):
+        if not (cond.is_inst and cond.op == "icmp" and cond.pred in ("eq", "ne") and outcome == (cond.pred == "eq")):
+            continue
+        for x, y in ((cond.ops[0], cond.ops[1]), (cond.ops[1], cond.ops[0])):
+            if not (y.is_const and y.is_int):
+                continue
+            while x.is_inst and x.op in ("zext", "sext", "trunc"):
+                x = x.ops[0]
+            if not (x.is_inst and x.op == "and" and any(o.is_const and o.is_int and o.uval == S_IFMT for o in x.ops)):
+                continue
+            for o in x.ops:
+                while o.is_inst and o.op in ("zext", "sext", "trunc"):
+                    o = o.ops[0]
+                if o.is_inst and o.op == "load":
+                    q = strip_casts(o.ops[0])
+                    if q.is_inst and q.op == "getelementptr" and q.field() and q.field()[1] == "mode" and \
+                            strip_casts(q.ops[0]) is base:
+                        return y.uval
+    if not base.is_inst and f.internal and depth < 2:
+        k = next((i for i, a in enumerate(f.params) if a is base), None)
+        cs = prog.callers_of(f)
+        if k is not None and cs:
+            ts = set()
+            for c in cs:
+                c.fn.build()
+                ts.add(_type_known(prog, c.fn, c.bb, c.ops[k], depth + 1) if k < len(c.ops) else None)
+            if len(ts) == 1:
+                return ts.pop()
+    return None
+
+
+def retag_rule(chk, prog):
+    """A1-retag: the mode of a tree node is the tag of its union (children / target / file data / device number).  A store to
+    the mode of a node that already exists keeps the type: the guards in front of it establish the type of the node and the
+    same type for the value that is stored.  Otherwise an entry of another type takes over a node whose union still holds
+    the old member -- a directory's child list is read as a link target or a device number."""
+    n = 0
+    for f in prog.functions():
+        if f.decl or "/test/" in f.unit.src or f.unit.src.startswith("extras/"):
+            continue
+        f.build()
+        for st in f.insts():
+            if st.op != "store":
+                continue
+            p = strip_casts(st.ops[1])
+            if not (p.is_inst and p.op == "getelementptr" and p.field() == ("struct.tree_node_t", "mode")):
+                continue
+            base = strip_casts(p.ops[0])
+            # a node that was allocated here has no union member yet
+            fresh = base.is_inst and base.op == "call" and norm_callee(base.callee) in ("calloc", "malloc", "alloc_flex")
+            if not fresh and base.is_inst and base.op == "load":
+                loc = strip_casts(base.ops[0])
+                for i in f.insts():
+                    if i.op == "store" and strip_casts(i.ops[1]) is loc and f.inst_dominates(i, base):
+                        v = strip_casts(i.ops[0])
+                        if v.is_inst and v.op == "call" and norm_callee(v.callee) in ("calloc", "malloc", "alloc_flex"):
+                            fresh = True
+                if not fresh and loc.is_inst and loc.op == "getelementptr":
+                    for i in f.insts():
+                        if i.op == "store" and f.inst_dominates(i, base):
+                            l2 = strip_casts(i.ops[1])
+                            v = strip_casts(i.ops[0])
+                            if l2.is_inst and l2.op == "getelementptr" and l2.field() == loc.field() and l2.field() and \
+                                    v.is_inst and v.op == "call" and norm_callee(v.callee) in ("calloc", "malloc", "alloc_flex"):
+                                fresh = True
+            if fresh:
+                continue
+            n += 1
+            chk.analysed(f)
+            inst = "%s:mode@%d" % (f.name, st.line)
+            old_t = _type_known(prog, f, st.bb, base)
+            v = st.ops[0]
+            while v.is_inst and v.op in ("zext", "sext", "trunc"):
+                v = v.ops[0]
+            new_t = None
+            if v.is_inst and v.op == "load":
+                q = strip_casts(v.ops[0])
+                if q.is_inst and q.op == "getelementptr" and q.field() and q.field()[1] == "mode":
+                    new_t = _type_known(prog, f, st.bb, q.ops[0])
+            elif v.is_inst and v.op == "or":
+                ks = [o.uval & S_IFMT for o in v.ops if o.is_const and o.is_int]
+                rest = [o for o in v.ops if not o.is_const]
+                if ks and ks[0] and all(o.is_inst and o.op == "and" and any(c.is_const and c.is_int and not (c.uval & S_IFMT)
+                                                                       for c in o.ops) for o in rest):
+                    new_t = ks[0]
+            if old_t is not None and new_t == old_t:
+                chk.ok("A1-retag", inst, st, "the node and the value stored are both known to be of type %o" % old_t)
+            else:
+                chk.violation("A1-retag", inst, st, "the mode (union tag) of an existing tree node is overwritten where %s: an entry "
+                              "of another type takes over a node whose union still holds the member of the old type (a directory's "
+                              "children read as a symlink target or device number)" % (
+                                  "the type of the node is not established" if old_t is None else
+                                  "the value stored is not established to be of the node's type"))
+    return n
+
+
 def run(chk):
     chk.explanation = (
         "Static rules for the untrusted-input front ends: (a) every size decoded from the archive reaches "
@@ -425,7 +538,7 @@ def run(chk):
         "read_header is dominated by the magic/version test and a valid checksum; (d) K6 bounded sinks over all anchored "
         "parser units (split_line, get_line, base64/hex decode, canonicalize_name, libtar, fstree, xfrm streams, pack/"
         "sort/xattr file readers); (e) the codec wrappers re-enter their loop only on progress codes (K-codec, shared with C15); (f) the PAX 'already set' mask is zeroed whenever the decoded header is wiped. "
-        "(g) K8-dangling: a freed pointer is not left in caller-visible memory; (h) K1-progress: the archive member stream never reports success with zero bytes; (i) K1-chase: the hard-link resolution loop has a cycle exit; (j) K5-optnull: an option field that is NULL when the option is absent (it is compared with NULL somewhere) is not dereferenced -- directly, by libc, or by a callee that does not test its parameter -- unless a non-NULL test dominates the use or the option parser ties it to a field known to be NULL there (pack-file lines reach such uses). Termination in general is not decided.")
+        "(g) K8-dangling: a freed pointer is not left in caller-visible memory; (h) K1-progress: the archive member stream never reports success with zero bytes; (i) K1-chase: the hard-link resolution loop has a cycle exit; (j) K5-optnull: an option field that is NULL when the option is absent (it is compared with NULL somewhere) is not dereferenced -- directly, by libc, or by a callee that does not test its parameter -- unless a non-NULL test dominates the use or the option parser ties it to a field known to be NULL there (pack-file lines reach such uses). (k) K6-strscan (sa/strscan.py): the cursor of a scan that stops at the terminator is advanced over a byte only where that byte was matched against a non-NUL value on every path (forward must-analysis per cursor and offset). (l) A1-retag: the mode of an existing tree node (the tag of its union) is overwritten only where the guards establish the same file type for the node and for the value stored. Termination in general is not decided.")
     chk.assumptions = ["cleanup after failure and name canonicalisation are decided by C13 and C18"]
     prog = load_program("all")
     files = anchored_files()
@@ -451,6 +564,13 @@ def run(chk):
     for tool in ("gensquashfs", "tar2sqfs"):
         run_optnull(chk, load_program(tool), "K5-optnull")
     chk.floor("K5-optnull", 6)
+    # text scanners (quoting and escapes in pack/sort files, PAX keys, names): the cursor never steps over the terminator
+    from ..strscan import run_strscan
+    run_strscan(chk, prog, "K6-strscan", lambda src: "/test/" not in src and not src.startswith("extras/"), STRSCAN_EXCEPTIONS)
+    chk.floor("K6-strscan", 5)
+    # "EEXIST handling": an entry never takes over an existing node of another type
+    retag_rule(chk, prog)
+    chk.floor("A1-retag", 2)
     controls(chk)
     # one site per kind at least (long name/link records, the PAX record); shared helpers lower the count of sites
     chk.floor("K6-limit", 2)
